@@ -237,6 +237,10 @@ Lemma stp_bind {A B} (m : step A) (f : vsock -> A -> step B) Q1 Q2 E :
   stp m Q1 E -> (forall s a, Q1 s a -> stp (f s a) Q2 E) -> stp (sbind m f) Q2 E.
 Proof. destruct m as [s a|s e|]; cbn [stp sbind]; auto. Qed.
 
+Lemma stp_bind' {A B} (m : step A) (f : vsock -> A -> step B) Q1 Q2 (E1 E : vsock -> Prop) :
+  stp m Q1 E1 -> (forall s, E1 s -> E s) -> (forall s a, Q1 s a -> stp (f s a) Q2 E) -> stp (sbind m f) Q2 E.
+Proof. destruct m as [s a|s e|]; cbn [stp sbind]; auto. Qed.
+
 Lemma stp_weaken {A} (m : step A) (Q1 Q2 : vsock -> A -> Prop) (E1 E2 : vsock -> Prop) :
   stp m Q1 E1 -> (forall s a, Q1 s a -> Q2 s a) -> (forall s, E1 s -> E2 s) -> stp m Q2 E2.
 Proof. destruct m as [s a|s e|]; cbn [stp]; auto. Qed.
